@@ -559,6 +559,18 @@ func (m *Model) Step(blk *Block, obs Observer) {
 	// 5. FCT burns
 	if h < e.V20 {
 		for _, tx := range blk.Fct {
+			// "... and nothing else in a factoid block does" (S: C11): the pFCT balance of every address
+			// that pays into a factoid transaction which is not a burn is C11's to watch
+			notBurn := len(tx.ECOut) != 1 || len(tx.Inputs) != 1 || len(tx.Outputs) > 0 ||
+				tx.ECOut[0].Address != ECBurnKey || tx.ECOut[0].Amount != 0
+			if notBurn {
+				for _, in := range tx.Inputs {
+					m.watch(h, "C11", hexAddr(in.Address), TFCT, "")
+				}
+				for _, o := range tx.Outputs {
+					m.watch(h, "C11", hexAddr(o.Address), TFCT, "")
+				}
+			}
 			if len(tx.ECOut) != 1 || len(tx.Inputs) != 1 || len(tx.Outputs) > 0 {
 				continue
 			}
